@@ -80,6 +80,7 @@ impl MutSpace {
         let scripts = if fams.contains(&Fam::Consistent) {
             let mut sc = consistent_scripts(&base, &layout);
             sc.extend(extension_scripts(&base, &layout, pm1.len(), ext));
+            sc.extend(options_grid_scripts(&base, &layout));
             sc
         } else {
             vec![]
@@ -658,6 +659,88 @@ pub fn extension_scripts(b: &[u8], lay: &Layout, base: usize, ext: usize) -> Vec
         }
         if ok {
             out.push((format!("proof re-encoded for extension degree {target} (every extension element {}, all lengths fixed)", if target > ext { "widened with zero coefficients" } else { "narrowed to its leading coefficients" }), vec![Edit::Replace(nb)]));
+        }
+    }
+    out
+}
+
+
+/// The proof re-labelled with other options: (log2 trace length, blowup, folding factor, remainder degree) over a
+/// small grid - including schedules the options constructor accepts although they fold a layer down to nothing -
+/// with the number of FRI layers and of FRI commitments adjusted to what those options imply (layers repeated or
+/// dropped), so that the option-dependent parsing stages are reached instead of an early count mismatch.
+pub fn options_grid_scripts(b: &[u8], lay: &Layout) -> Vec<(String, Vec<Edit>)> {
+    let mut out = vec![];
+    let field = |n: &str| lay.fields.iter().find(|f| f.name == n);
+    let comp = |n: &str| lay.components.iter().find(|c| c.0 == n);
+    let (Some(fl), Some(fb), Some(ff), Some(fr), Some(fnl), Some(faux)) = (field("log2_trace_length"), field("blowup_factor"), field("fri_folding_factor"), field("fri_remainder_max_degree"), field("fri.num_layers"), field("aux_width")) else { return out };
+    let Some((_, clo, cll, cps, cpe)) = comp("commitments") else { return out };
+    let Some(rem_len) = field("fri.remainder_len") else { return out };
+    let dlen = lay.fields.iter().find(|f| f.name == "commitment[0]").map(|f| f.len).unwrap_or(32);
+    let nl = b[fnl.off] as usize;
+    let fixed_roots = 1 + (b[faux.off] > 0) as usize + 1; // trace roots + constraint root
+    let digests: Vec<&[u8]> = b[*cps..*cpe].chunks(dlen).collect();
+    if digests.len() < fixed_roots + 1 {
+        return out;
+    }
+    let layer_range = |l: usize| -> Option<(usize, usize)> {
+        let s = lay.fields.iter().find(|f| f.name == format!("fri.layer[{l}].values_len"))?.off;
+        let e = lay.components.iter().find(|c| c.0 == format!("fri.layer[{l}].paths"))?.4;
+        Some((s, e))
+    };
+    let layers: Vec<Vec<u8>> = (0..nl).filter_map(|l| layer_range(l).map(|(s, e)| b[s..e].to_vec())).collect();
+    if layers.len() != nl {
+        return out;
+    }
+    let layers_start = fnl.off + 1;
+    let layers_end = rem_len.off;
+    for ll in [3u8, 4, 5, 6] {
+        for blowup in [2u8, 4, 8, 16] {
+            for folding in [2u8, 4, 8, 16] {
+                for rem in [0u8, 1, 3, 7, 15, 255] {
+                    // number of layers as FriOptions::num_fri_layers computes it (the domain may be folded to nothing)
+                    let mut domain = (1usize << ll) * blowup as usize;
+                    let max_rem = (rem as usize + 1) * blowup as usize;
+                    let mut want = 0usize;
+                    while domain > max_rem && want < 12 {
+                        domain /= folding as usize;
+                        want += 1;
+                    }
+                    let mut nb: Vec<u8> = Vec::with_capacity(b.len() + 256);
+                    nb.extend_from_slice(&b[..*clo]);
+                    // commitments: fixed roots, then want + 1 FRI roots
+                    let mut cm: Vec<u8> = vec![];
+                    for d in digests.iter().take(fixed_roots) {
+                        cm.extend_from_slice(d);
+                    }
+                    for k in 0..=want {
+                        let src = digests.get(fixed_roots + k).copied().unwrap_or(digests[digests.len() - 1]);
+                        cm.extend_from_slice(src);
+                    }
+                    let mut lenb = vec![0u8; *cll];
+                    write_le(&mut lenb, 0, *cll, cm.len() as u64);
+                    nb.extend(lenb);
+                    nb.extend(cm);
+                    nb.extend_from_slice(&b[*cpe..fnl.off]);
+                    nb.push(want as u8);
+                    for k in 0..want {
+                        match layers.get(k).or(layers.last()) {
+                            Some(l) => nb.extend_from_slice(l),
+                            None => nb.extend_from_slice(&[0u8; 8]),
+                        }
+                    }
+                    let _ = (layers_start, layers_end);
+                    nb.extend_from_slice(&b[layers_end..]);
+                    // header fields (all before the commitments, offsets unchanged)
+                    nb[fl.off] = ll;
+                    nb[fb.off] = blowup;
+                    nb[ff.off] = folding;
+                    nb[fr.off] = rem;
+                    if nb != b {
+                        out.push((format!("options relabelled: log2(n) = {ll}, blowup {blowup}, folding {folding}, remainder degree {rem}, FRI layers and commitments adjusted to {want}"), vec![Edit::Replace(nb)]));
+                    }
+                }
+            }
         }
     }
     out
